@@ -576,7 +576,12 @@ def gen(rng, cfg, tier='quick', kf=(), effects=False):
             # operation that starts coroutines from inside its task (np_roll with a secret shift)
             size = rng.randint(2, 4)
             x0 = fresh()
-            stmts.append(['input', x0, [], {'sender': rng.randrange(cfg.m), 'shape': [size], 'values': rand_vals(rng, td, size),
+            vals0 = rand_vals(rng, td, size)
+            if kind == 'int':
+                # x, x^2 and x^3 must stay well inside the type (SecInt(8): |x| <= 3)
+                lim0 = max(1, int((1 << (td['l'] - 2)) ** (1 / 3)) - 1)
+                vals0 = [max(-lim0, min(lim0, int(v))) for v in vals0]
+            stmts.append(['input', x0, [], {'sender': rng.randrange(cfg.m), 'shape': [size], 'values': vals0,
                                             'dummy': rand_vals(rng, td, size)}])
             a0, r0, f0 = fresh(), fresh(), fresh()
             stmts += [['sqr', a0, [x0], {}], ['await_output', None, [x0], {}],
